@@ -642,7 +642,7 @@ class VCluster:
              after=lambda s, r, *a, **k: vc.log("move", vc.cur().pid, os.path.basename(str(s._filename)),
                                                 tuple((jid(x.name), x.return_code, x.status) for x in r)))
         wrap(ra.ResultsAggregator, "_append_result",
-             after=lambda s, r, text: vc.log("row", vc.cur().pid, os.path.basename(str(s._filename)), tuple(text.split(",")[:3])))
+             after=lambda s, r, text, *more: vc.log("row", vc.cur().pid, os.path.basename(str(s._filename)), tuple(text.split(",")[:3])))
         wrap(js.JobSubmitter, "write_results_summary",
              before=lambda s, fn, missing: vc.log("summary", vc.cur().pid, tuple(sorted(jid(m) for m in missing)),
                                                   tuple(sorted((jid(r.name), r.return_code, r.status) for r in s._results))))
